@@ -11,7 +11,7 @@ m = {
   "guard": "droundy_tinyset_verif",
   "enable": "RUSTFLAGS='--cfg droundy_tinyset_verif' (set in /verif/harness/.cargo/config.toml); the harness crate depends on /repo by path",
   "baseline_off_cmd": "cd /repo && cargo test --workspace --no-fail-fast --offline",
-  "source_commits": ["8f3eb94", "3b4eb06"],
+  "source_commits": ["8f3eb94", "3b4eb06", "3f04f5f"],
   "add_only": True
  },
  "engines": [
